@@ -97,9 +97,71 @@ Theorem C14_foreign_ignored : forall off sp fixed files flt sfx n,
     filter_files off (fsfx sp) fixed files flt sfx = filter_files off (fsfx sp) fixed (l1 ++ l2) flt sfx.
 Proof. exact foreign_ignored. Qed.
 
+Require Import FL.Flw.Run FL.Flw.NumInv FL.Flw.NumRun FL.Flw.NumTheorems FL.Flw.NumCleanupNames FL.Flw.NumCleanupStep FL.Flw.NumCleanupRun FL.Flw.NumCleanup FL.Flw.ForeignFs FL.Flw.ForeignSort FL.Flw.ForeignModel FL.Flw.NumForeign FL.Flw.NumCleanupForeign FL.Oracles.O_Flw.
+(* END TO END non-interference, Numbers naming, EVERY history of a run: with arbitrary foreign files in the directory (names that the
+   family test rejects: num_member c n = false - this covers near misses like a_r00001.log.bak, a_rx.log, ax_r00001.log) the
+   logger's observations are those of the run in the empty directory (snapshots modulo the foreign entries), every foreign file is
+   unchanged, and all other names and contents are exactly those of the run in the empty directory *)
+Theorem C14_numbers_foreign_ignored c crit t0 off foreign ops :
+  numcfg c crit -> Forall basic_op ops ->
+  NoDup (List.map fst foreign) ->
+  (forall n, In n (List.map fst foreign) -> num_member c n = false) ->
+  let ops' := OStart c :: ops ++ [OStop] in
+  let rf := run (sys0f t0 off foreign) ops' in
+  let r0 := run (sys0 t0 off) ops' in
+  (* 1: the same observations; a snapshot shows the foreign files in addition *)
+  List.map (strip_obs (List.map fst foreign)) (snd rf) = snd r0
+  /\ (Forall (fun o => o <> OSnap) ops -> snd rf = snd r0)
+  (* 2: the foreign files are in place, unchanged *)
+  /\ (forall n d, In (n, d) foreign -> file_of (wfs (s_w (fst rf))) n = Some (plain_file t0 d))
+  (* 3: every other name is what the run in the empty directory makes of it *)
+  /\ (forall n, ~ In n (List.map fst foreign) -> file_of (wfs (s_w (fst rf))) n = file_of (wfs (s_w (fst r0))) n)
+  /\ (forall n, In n (List.map fst foreign) -> file_of (wfs (s_w (fst r0))) n = None)
+  (* the whole state: the run is the embedding of the run in the empty directory *)
+  /\ fst rf = embedx (names (fs0f t0 foreign)) (inodes (fs0f t0 foreign)) (fst r0).
+Proof. exact (numbers_foreign_ignored c crit t0 off foreign ops). Qed.
+
+(* ... so the stream theorem carries over *)
+Theorem C14_numbers_stream_foreign c crit t0 off foreign ops :
+  numcfg c crit -> Forall basic_op ops ->
+  NoDup (List.map fst foreign) ->
+  (forall n, In n (List.map fst foreign) -> num_member c n = false) ->
+  exists files,
+    reads_family c (List.map fst foreign)
+      (wfs (s_w (fst (run (sys0f t0 off foreign) (OStart c :: ops ++ [OStop]))))) files
+    /\ concat files = written ops.
+Proof. exact (numbers_stream_foreign c crit t0 off foreign ops). Qed.
+
+(* the same with a cleanup strategy: the cleanup neither removes nor compresses a foreign file *)
+Theorem C14_numbers_cleanup_foreign_ignored c crit k t0 off foreign ops :
+  numkcfg c crit k -> Forall basic_op ops ->
+  kside c k (nclosed (a_run None ops (snd (run (fst (step (sys0 t0 off) (OStart c))) ops)))) ->
+  NoDup (List.map fst foreign) ->
+  (forall n, In n (List.map fst foreign) -> num_member c n = false) ->
+  let ops' := OStart c :: ops ++ [OStop] in
+  let rf := run (sys0f t0 off foreign) ops' in
+  let r0 := run (sys0 t0 off) ops' in
+  (* 1: the same observations; a snapshot shows the foreign files in addition *)
+  List.map (strip_obs (List.map fst foreign)) (snd rf) = snd r0
+  /\ (Forall (fun o => o <> OSnap) ops -> snd rf = snd r0)
+  (* 2: the foreign files are in place, unchanged *)
+  /\ (forall n d, In (n, d) foreign -> file_of (wfs (s_w (fst rf))) n = Some (plain_file t0 d))
+  (* 3: every other name is what the run in the empty directory makes of it *)
+  /\ (forall n, ~ In n (List.map fst foreign) -> file_of (wfs (s_w (fst rf))) n = file_of (wfs (s_w (fst r0))) n)
+  /\ (forall n, In n (List.map fst foreign) -> file_of (wfs (s_w (fst r0))) n = None)
+  (* the whole state: the run is the embedding of the run in the empty directory *)
+  /\ fst rf = embedx (names (fs0f t0 foreign)) (inodes (fs0f t0 foreign)) (fst r0).
+Proof. exact (numbers_cleanup_foreign_ignored c crit k t0 off foreign ops). Qed.
+
 Check C14_family_name_shape. Check C14_listing_prefix.
 Print Assumptions C14_family_name_shape.
 Print Assumptions C14_listing_prefix.
 Print Assumptions C14_listing_accepts_family_only.
 Print Assumptions C14_listing_accepts_all_family.
 Print Assumptions C14_foreign_ignored.
+Check C14_numbers_foreign_ignored.
+Print Assumptions C14_numbers_foreign_ignored.
+Check C14_numbers_stream_foreign.
+Print Assumptions C14_numbers_stream_foreign.
+Check C14_numbers_cleanup_foreign_ignored.
+Print Assumptions C14_numbers_cleanup_foreign_ignored.
